@@ -54,3 +54,30 @@ def render(p):
             t += [str(x) for x in o]
         out.append(" ".join(t))
     return "\n".join(out) + "\n"
+
+
+def gen_long_program(r, lps=None, target=None):
+    """small event population, long duration: many GVT rounds and fossil collections per event"""
+    lps = lps or r.choice([2, 3, 4])
+    ntypes = r.range(2, 4)
+    p = dict(lps=lps, ncls=r.range(1, 2), target=target or r.choice([600, 1200]), seed=r.u64(), grid=r.choice([0, 2]), inits=[], rows=[], targets=[])
+    for lp in range(lps):
+        p["inits"].append((lp, r.choice([0, 1, 2]), r.below(ntypes), r.choice(SIZES)))
+    for ty in range(ntypes):
+        for cls in range(p["ncls"]):
+            draws = [r.below(3) for _ in range(r.choice([0, 0, 1]))]
+            mem = []
+            if r.chance(1, 2):
+                mem.append((r.choice([1, 3, 4, 4]), r.below(4), r.choice([1, 8, 100, 2000])))
+            outs = []
+            for _ in range(r.choice([1, 1, 1, 1, 2])):
+                dt = r.choice([0, 1, 1, 2, 3])
+                oty = r.below(ntypes)
+                if dt == 0:
+                    if ty == 0:
+                        dt = 1
+                    else:
+                        oty = r.below(ty)
+                outs.append((r.choice([0, 2, 3, 3]), r.below(lps + 1), dt, oty, r.choice(SIZES)))
+            p["rows"].append((ty, cls, draws, mem, outs))
+    return p
